@@ -22,7 +22,12 @@ for n in names:
         results[n]={"property":prop,"detected":p.returncode==1 and bool(viol),"line":viol[0] if viol else "","wall_s":round(time.time()-t,1)}
         if viol and "replay=" in viol[0]:
             rp=viol[0].split("replay=")[1].split(" ")[0]
-            try: results[n]["replay_head"]=[l for l in open(rp).read().splitlines()[:6]]
+            try:
+                txt=open(rp).read()
+                results[n]["replay_head"]=[l for l in txt.splitlines()[:6]]
+                # keep the failing case: it goes into corpus/ (replayed first by every check)
+                if "no-failing-input-found" not in viol[0] and "\ncase " in "\n"+txt:
+                    open(f"{d}/replay.case","w").write(txt)
             except Exception: pass
     finally:
         subprocess.run(["git","-C","/repo","checkout","--","."],check=True)
